@@ -43,6 +43,7 @@ def instances(tier, seed):
         out.append(dict(name=f'enumerate:{g}', family='enumerate', graph=g, cost=2 ** min(len(e), 6)))
     out.append(dict(name='typing:chain4', family='typing', graph='chain4', cost=400))
     out.append(dict(name='typing:star4', family='typing', graph='star4', cost=300))
+    out.append(dict(name='typing:chain5:small-alphabet', family='typing', graph='chain5', alphabet=['C_3', 'C_1', 'C_R', 'Zr8f4'], cost=200))
     out.append(dict(name='retype', family='retype', cost=20))
     out.append(dict(name='typekey:crosshair', family='crosshair', cost=10))
     if tier == 'thorough':
@@ -52,6 +53,7 @@ def instances(tier, seed):
 
 
 GRAPHS['branched5'] = [(0, 1), (1, 2), (1, 3), (3, 4)]
+GRAPHS['chain5'] = [(0, 1), (1, 2), (2, 3), (3, 4)]
 
 
 def canon(seq):
@@ -191,8 +193,9 @@ def body(ctx, p):
     Atoms = ctx.ms.Atoms
     edges = GRAPHS[p['graph']]
     n = max(max(e) for e in edges) + 1
-    ti = [ctx.int(f"ty{i}", 0, len(ALPHABET) - 1) for i in range(n)]
-    names = [ALPHABET[int(t)] for t in ti]
+    alpha = p.get('alphabet') or ALPHABET
+    ti = [ctx.int(f"ty{i}", 0, len(alpha) - 1) for i in range(n)]
+    names = [alpha[int(t)] for t in ti]
     excl_bit = ctx.choose(2, 'exclude')
 
     def run(perm, reverse_lists, exclude):
